@@ -449,6 +449,79 @@ func TestC19(t *testing.T) {
 			}
 		}
 	}
+	// (6) a caller's list is filtered under one environment and then under another: the list
+	// itself is left as it was, and the second result is again exactly the plugins of the list
+	// whose requirements the second environment satisfies (every ordered pair of tuples).
+	var tuples []capCase
+	for _, os := range []plugin.OS{plugin.OSLinux, plugin.OSWindows, plugin.OSMac, plugin.OSAny} {
+		for _, nw := range []plugin.Network{plugin.NetworkOffline, plugin.NetworkOnline} {
+			for _, d := range []bool{false, true} {
+				for _, r := range []bool{false, true} {
+					tuples = append(tuples, capCase{OS: int(os), Network: int(nw), Direct: d, Running: r})
+				}
+			}
+		}
+	}
+	capsOf := func(c capCase) *plugin.Capabilities {
+		return &plugin.Capabilities{OS: plugin.OS(c.OS), Network: plugin.Network(c.Network), DirectFS: c.Direct, RunningSystem: c.Running}
+	}
+	for _, a := range tuples {
+		for _, b := range tuples {
+			for _, kind := range []string{"filesystem", "standalone", "detector"} {
+				var before, after, second, want []string
+				switch kind {
+				case "filesystem":
+					l := allFS()
+					before = names(l)
+					el.FilterByCapabilities(l, capsOf(a))
+					after = names(l)
+					second = names(el.FilterByCapabilities(l, capsOf(b)))
+					for _, p := range fsAll {
+						if satisfies(p.Requirements(), b) {
+							want = append(want, p.Name())
+						}
+					}
+				case "standalone":
+					l := allSA()
+					before = names(l)
+					sl.FilterByCapabilities(l, capsOf(a))
+					after = names(l)
+					second = names(sl.FilterByCapabilities(l, capsOf(b)))
+					for _, p := range saAll {
+						if satisfies(p.Requirements(), b) {
+							want = append(want, p.Name())
+						}
+					}
+				case "detector":
+					l := allDet()
+					before = names(l)
+					dl.FilterByCapabilities(l, capsOf(a))
+					after = names(l)
+					second = names(dl.FilterByCapabilities(l, capsOf(b)))
+					for _, p := range detAll {
+						if satisfies(p.Requirements(), b) {
+							want = append(want, p.Name())
+						}
+					}
+				}
+				var err error
+				if strings.Join(before, ",") != strings.Join(after, ",") {
+					err = fmt.Errorf("FilterByCapabilities(%s, %+v) changed the list it was given: before %v, after %v", kind, *capsOf(a), before, after)
+				} else {
+					sort.Strings(second)
+					sort.Strings(want)
+					if strings.Join(second, ",") != strings.Join(want, ",") {
+						err = fmt.Errorf("%s list filtered under %+v and then under %+v: second result %v, want %v", kind, *capsOf(a), *capsOf(b), second, want)
+					}
+				}
+				cc := b
+				cc.Check, cc.Kind, cc.Name = "filter_twice", kind, fmt.Sprintf("first=%d/%d/%v/%v", a.OS, a.Network, a.Direct, a.Running)
+				if !e.Report(cc, ev.Outcome{NonTrivial: a != b, Classes: []string{"filter_twice"}}, err) {
+					return
+				}
+			}
+		}
+	}
 	completed = true
 }
 
